@@ -101,7 +101,7 @@ func seedProgram(rt *rapid.T) (*vcase.Case, string) {
 }
 
 func genParseCase(rt *rapid.T) *ParseCase {
-	class := rapid.SampledFrom([]string{"yaml-structure", "yaml-structure", "yaml-structure", "bytes-mutation", "bytes-random", "file-tree", "input-doc"}).Draw(rt, "class")
+	class := rapid.SampledFrom([]string{"yaml-structure", "yaml-structure", "yaml-structure", "bytes-mutation", "bytes-random", "file-tree", "input-doc", "bad-default"}).Draw(rt, "class")
 	pc := &ParseCase{Class: class, Files: map[string]string{}, WorkflowFile: "workflow.yaml", Input: "{}"}
 	c, text := seedProgram(rt)
 	for name, sub := range c.Subs {
@@ -135,6 +135,29 @@ func genParseCase(rt *rapid.T) *ParseCase {
 		pc.NonTrivial = ok && out != doc
 		pc.Files["workflow.yaml"] = text
 		pc.Files[target] = out
+	case "bad-default":
+		// the text of one `default:` (of the root object or of a nested / referenced object) is replaced
+		// by something that is not valid JSON or not a value of the property's type; the input document
+		// supplies the objects but omits optional fields, so that defaults are actually applied
+		lines := strings.Split(text, "\n")
+		var idx []int
+		for i, l := range lines {
+			if strings.HasPrefix(strings.TrimSpace(l), "default:") {
+				idx = append(idx, i)
+			}
+		}
+		pc.Files["workflow.yaml"] = text
+		pc.Desc = "no default in the seed workflow"
+		if len(idx) > 0 {
+			i := idx[rapid.IntRange(0, len(idx)-1).Draw(rt, "default.which")]
+			bad := rapid.SampledFrom([]string{"'{'", "'[1,'", "'tru'", "'\"unterminated'", "'{\"a\": }'", "'nul'", "''", "'[]'", "'{}'", "'\"text\"'", "'1e999'"}).Draw(rt, "default.text")
+			lines[i] = lines[i][:strings.Index(lines[i], "default:")] + "default: " + bad
+			pc.Files["workflow.yaml"] = strings.Join(lines, "\n")
+			pc.Desc = fmt.Sprintf("default at line %d replaced by %s", i+1, bad)
+			pc.NonTrivial = true
+			// drop the optional fields from the input document, at every depth
+			pc.Input = vcase.RenderInputYAML(stripOptional(c.Main.Input, c.InputDoc))
+		}
 	case "bytes-mutation":
 		b := []byte(text)
 		n := rapid.IntRange(1, 4).Draw(rt, "nmut")
@@ -185,6 +208,24 @@ func genParseCase(rt *rapid.T) *ParseCase {
 		genFileTree(rt, pc, text)
 	}
 	return pc
+}
+
+// stripOptional removes the optional fields of a document (recursively): what is left forces the
+// schema to fill in its defaults.
+func stripOptional(fields []vcase.InField, doc map[string]any) map[string]any {
+	out := map[string]any{}
+	for _, f := range fields {
+		v, ok := doc[f.Name]
+		if !ok || !f.Required {
+			continue
+		}
+		if sub, isMap := v.(map[string]any); isMap && f.Type == "obj" {
+			out[f.Name] = stripOptional(f.Fields, sub)
+		} else {
+			out[f.Name] = v
+		}
+	}
+	return out
 }
 
 func toYAMLScalar(v any) string {
